@@ -4,8 +4,8 @@
    An HDF5 BIOM file stores, per axis, the ids, optional per-id metadata and the WHOLE matrix
    in that axis' compressed orientation (observation/matrix is CSR, sample/matrix is CSC).
    `Table.from_hdf5(h, ids=, axis=)` reads only the orientation of the requested axis
-   (biom/table.py:4291-4294) while a plain `Table.from_hdf5(h)` reads the sample orientation
-   (default axis = 'sample').  Everything below follows biom/table.py:4172-4384 (as of a7665d73) statement by
+   (biom/table.py:4302-4305) while a plain `Table.from_hdf5(h)` reads the sample orientation
+   (default axis = 'sample').  Everything below follows biom/table.py:4183-4395 (as of 6327e066) statement by
    statement; numpy / scipy calls are replaced by the list functions defined here.
 
    IDs are integer codes, matrix values are (scaled) integers, a metadata entry is an opaque
@@ -53,12 +53,12 @@ Definition axis_dense (a : axis) (f : h5file) : matrix :=
   dense_of_cs (length (ax_ids A)) (length (file_ids (other a) f)) (ax_indptr A) (ax_indices A) (ax_data A).
 
 (* the observation x sample matrix a read along axis a produces: csr_matrix for
-   'observation', csc_matrix for 'sample' (table.py:4364-4367) *)
+   'observation', csc_matrix for 'sample' (table.py:4375-4378) *)
 Definition orient (a : axis) (nobs_ : nat) (m : matrix) : matrix :=
   match a with Obs => m | Samp => transpose nobs_ m end.
 
 (* ------------------------------------------------------------------ metadata normalisation *)
-(* Table._cast_metadata (table.py:681-690, since 16e406b1 also at the end of filter, 2418-2419):
+(* Table._cast_metadata (table.py:681-694, since 16e406b1 also at the end of filter):
    metadata none of whose entries holds anything (None or an empty mapping) becomes None.
    An entry is an opaque tree; the two empty ones are the harness' encodings of None and {}
    (tables.md_tree: L [I 0] and L [I 6; L []]). *)
@@ -72,7 +72,7 @@ Definition cast_t (t : table) : table :=
   mkT (oids t) (sids t) (mat t) (cast_md (omd t)) (cast_md (smd t)) (ttype t).
 
 (* ------------------------------------------------------------------ reading everything *)
-(* Table.from_hdf5(h): axis defaults to 'sample', ids is None (table.py:4287-4294, 4356-4373) *)
+(* Table.from_hdf5(h): axis defaults to 'sample', ids is None (table.py:4298-4305, 4367-4384) *)
 Definition from_hdf5_all (f : h5file) : table :=
   cast_t (mkT (file_ids Obs f) (file_ids Samp f)
               (orient Samp (length (file_ids Obs f)) (axis_dense Samp f))
@@ -137,7 +137,7 @@ Definition gather {A} (ranges : list (nat * nat)) (l : list A) : list A :=
 Definition ranges_of (indptr : list nat) (keep : list nat) : list (nat * nat) :=
   map (fun i => (nth i indptr 0, nth (S i) indptr 0)) keep.
 
-(* `md or None` after `_subset_metadata` (table.py:4329-4337, 4369-4370) *)
+(* `md or None` after `_subset_metadata` (table.py:4340-4348, 4380-4381) *)
 Definition subset_md (md : option (list Tree)) (mask : list bool) : option (list Tree) :=
   match md with
   | None => None
@@ -152,20 +152,20 @@ Definition put_axis (a : axis) (ids_a ids_o : list Z) (m : matrix) (md_a md_o : 
   end.
 
 (* ------------------------------------------------------------------ default variant *)
-(* Table.from_hdf5(h, ids=ids, axis=a)  (table.py:4296-4384) *)
+(* Table.from_hdf5(h, ids=ids, axis=a)  (table.py:4307-4395) *)
 Definition from_hdf5_subset (ids_ : list Z) (a : axis) (f : h5file) : result table :=
   let A := stored a f in
   let O := stored (other a) f in
   (* _get_ids: idx = np.isin(source_ids, desired_ids); ids = source_ids[idx];
-     refusal when ids.shape != desired_ids.shape (4307-4317) *)
+     refusal when ids.shape != desired_ids.shape (4318-4328) *)
   let mask := id_mask ids_ (ax_ids A) in
   let kept := select mask (ax_ids A) in
   if negb (Nat.eqb (length kept) (length ids_)) then RErr E_VALUE else
-  (* the other axis is taken whole (desired_ids is None): mask of ones (4303-4305) *)
+  (* the other axis is taken whole (desired_ids is None): mask of ones (4314-4316) *)
   let ones := map (fun _ => true) (ax_ids O) in
   let md_a := subset_md (ax_md A) mask in
   let md_o := subset_md (ax_md O) ones in
-  (* 4340-4355 *)
+  (* 4351-4366 *)
   let keep := positions mask in
   let ranges := sort_pairs (ranges_of (ax_indptr A) keep) in
   match ranges with
@@ -178,20 +178,20 @@ Definition from_hdf5_subset (ids_ : list Z) (a : axis) (f : h5file) : result tab
     let nobs_ := match a with Obs => length kept | Samp => length (ax_ids O) end in
     (* the constructor normalises the metadata it is given *)
     let t := cast_t (put_axis a kept (ax_ids O) (orient a nobs_ m) md_a md_o (f_type f)) in
-    (* 4375-4382: filter(any_value) on the OTHER axis *)
+    (* 4386-4393: filter(any_value) on the OTHER axis *)
     ROk (drop_empty (other a) t)
   end.
 
 (* ------------------------------------------------------------------ metadata-free variant *)
-(* Table.from_hdf5(h, ids=ids, axis=a, subset_with_metadata=False)  (table.py:4192-4231) *)
+(* Table.from_hdf5(h, ids=ids, axis=a, subset_with_metadata=False)  (table.py:4203-4242) *)
 Definition from_hdf5_subset_nomd (ids_ : list Z) (a : axis) (f : h5file) : result table :=
   let A := stored a f in
   let O := stored (other a) f in
-  (* ids.issubset(axis_ids) (4202-4205) *)
+  (* ids.issubset(axis_ids) (4213-4216) *)
   if negb (forallb (fun i => zmem i (ax_ids A)) ids_) then RErr E_VALUE else
   let mask := id_mask ids_ (ax_ids A) in
-  let keep := positions mask in                       (* to_keep (4207-4208), file order *)
-  let ranges := ranges_of (ax_indptr A) keep in       (* start_end, not sorted (4209) *)
+  let keep := positions mask in                       (* to_keep (4218-4219), file order *)
+  let ranges := ranges_of (ax_indptr A) keep in       (* start_end, not sorted (4220) *)
   match ranges with
   | [] => RErr E_VALUE                 (* np.concatenate([]) *)
   | _ =>
@@ -205,7 +205,7 @@ Definition from_hdf5_subset_nomd (ids_ : list Z) (a : axis) (f : h5file) : resul
   end.
 
 (* ------------------------------------------------------------------ parse_table(json, ids=, axis=) *)
-(* Table.filter with a predicate over (values, id, metadata), in place (parse.py:444-453):
+(* Table.filter with a predicate over (values, id, metadata), in place (parse.py:448-457):
    the predicate is evaluated on every vector of the axis, the accepted ones are kept *)
 Definition filter_by (p : list Z -> Z -> bool) (a : axis) (t : table) : table :=
   flt a (map (fun k => p (vec a t k) (nth k (ids a t) 0%Z)) (seq 0 (length (ids a t)))) t.
@@ -232,7 +232,7 @@ Definition wf_axis (A : h5axis) : Prop :=
   /\ Forall (fun p => p <= length (ax_data A)) (ax_indptr A)
   /\ length (ax_indices A) = length (ax_data A)
   /\ md_ok (ax_md A) (length (ax_ids A))
-  /\ ax_md A <> Some [].            (* axis_load turns "no id has metadata" into None (table.py:4280) *)
+  /\ ax_md A <> Some [].            (* axis_load turns "no id has metadata" into None (table.py:4291) *)
 Definition md_nonemptyb (md : option (list Tree)) : bool := match md with Some [] => false | _ => true end.
 Definition wf_axisb (A : h5axis) : bool :=
   negb (zdup (ax_ids A)) && Nat.eqb (length (ax_indptr A)) (S (length (ax_ids A))) && monotoneb (ax_indptr A)
